@@ -119,6 +119,10 @@ class C06(Oracle):
 
     def step(self, ctx, i, op, pre, out, post, tag):
         k = op["op"]
+        if k == "switch_register" and out.ok:
+            reg = op["register"]
+            self.coords = {q: c for q, c in zip(reg["ids"], reg["coords"])}
+            ctx.probe("atoms_moved_between_traps")
         if post.parametrized or not post.channels:
             return ()
         if k == "obs_sample" or (k in ops.MUTATING and out.ok and i % self.every == 0) or (k in ops.RESTART and out.ok):
